@@ -15,8 +15,10 @@ import time
 import traceback
 
 ROOT = os.path.dirname(os.path.dirname(os.path.abspath(__file__)))
-EVID = os.path.join(ROOT, 'evidence')
-REPLAYS = os.path.join(ROOT, 'replays')
+# VERIF_OUT_DIR redirects evidence and replays (used when a check is pointed at a scratch tree holding a seeded change)
+_OUT = os.environ.get('VERIF_OUT_DIR') or ROOT
+EVID = os.path.join(_OUT, 'evidence')
+REPLAYS = os.path.join(_OUT, 'replays')
 KNOWN = os.path.join(ROOT, 'known_findings.json')
 
 
